@@ -59,11 +59,15 @@ ASSUMPTIONS = ["between two forced operations a thread runs without being preemp
                "scheduling, not modelled)",
                "the producer's cleanup code does not suspend and does not raise"]
 EXHAUSTIVE = {"quick": True, "thorough": True}
-PARTIAL = "real preemption inside a statement, GIL timing, pool exhaustion and wall-clock ping jitter are not modelled"
+PARTIAL = ("real preemption inside a statement, GIL timing and wall-clock ping jitter are not modelled; pool exhaustion is modelled as "
+           "'the relay's job is never picked up' (theorem pool_exhausted, schedules of kind 5), not as a pool of ten workers shared by several streams")
 
 K_WS, K_WE, K_AS, K_AE = 0, 1, 2, 3
-KIND_NAME = {0: "wsgi-stream", 1: "wsgi-sse", 2: "asgi-stream", 3: "asgi-sse"}
-DEPTH = {"quick": {0: 8, 1: 12, 2: 16, 3: 10}, "thorough": {0: 8, 1: 15, 2: 20, 3: 13}}
+# 5: the WSGI event stream on a thread pool without a free worker (more streams open than the pool's 10 workers, the
+# others idle): the relay's job is never picked up (model: coarseWsat, theorem pool_exhausted)
+K_WX = 5
+KIND_NAME = {0: "wsgi-stream", 1: "wsgi-sse", 2: "asgi-stream", 3: "asgi-sse", 5: "wsgi-sse-pool-exhausted"}
+DEPTH = {"quick": {0: 8, 1: 12, 2: 16, 3: 10, 5: 10}, "thorough": {0: 8, 1: 15, 2: 20, 3: 13, 5: 14}}
 
 
 # ------------------------------------------------------------------ cases
@@ -86,16 +90,17 @@ def _enumerate(reqs):
 def cases(tier, rng):
     depth = DEPTH["thorough" if tier == "thorough" else "quick"]
     reqs = [(k, n, e, depth[k]) for k in (0, 1, 2, 3) for n in range(4) for e in (0, 1, 2)]
+    reqs += [(K_WX, n, e, depth[K_WX]) for n in (0, 2) for e in (0, 2)]
     for (k, n, e, d), scheds in zip(reqs, _enumerate(reqs)):
         for s in scheds:
             yield "exhaustive-" + KIND_NAME[k], [k, [n, e], s]
     nrand = 3000 if tier == "quick" else 40000
     for i in range(nrand):
-        k = rng.choice((1, 1, 1, 3, 3, 3, 2, 0))
+        k = rng.choice((1, 1, 1, 3, 3, 3, 2, 0, 1, 1, 3, 3, 2, 0, K_WX))
         n = rng.randrange(0, 7)
         e = rng.randrange(3)
         ln = rng.randrange(1, 61)
-        if k in (0, 1):
+        if k in (0, 1, K_WX):
             w = rng.choice(([5, 5, 1], [8, 3, 1], [3, 8, 1], [6, 6, 0]))
             s = rng.choices((0, 1, 2), weights=w, k=ln)
         else:
@@ -299,19 +304,21 @@ class ShimPool:
     """a thread pool with a free worker: the work item is picked up when the scheduler
     grants the relay its `start` step (until then the future can be cancelled)"""
 
-    def __init__(self):
+    def __init__(self, exhausted=False):
         self.futures = []
+        self.exhausted = exhausted     # no free worker, ever: the job stays queued
 
     def submit(self, fn, *args, **kwargs):
         fut = ShimFuture()
         self.futures.append(fut)
         sched = _CUR
         sched.register("P")
+        exhausted = self.exhausted
 
         def work():
             _ROLE.name = "P"
             try:
-                sched.point("start", lambda: not fut.f.cancelled())
+                sched.point("start", lambda: not exhausted and not fut.f.cancelled())
                 if not fut.f.set_running_or_notify_cancel():
                     return
                 try:
@@ -382,7 +389,7 @@ def _parse_chunk(kind, b):
     if b == b": ping\n\n":
         return -1
     try:
-        if kind in (K_WE, K_AE):
+        if kind in (K_WE, K_AE, K_WX):
             assert b.startswith(b"data: ") and b.endswith(b"\n\n")
             return int(b[6:-2])
         assert b.endswith(b",")
@@ -402,10 +409,10 @@ def run_wsgi(kind, n, ending, choices):
     _CUR = sched
     out = []
     res = {"outcome": None}
-    if kind == K_WE:
+    if kind in (K_WE, K_WX):
         prod = SyncProducer(n, ending, lambda k: {"data": str(k)}, True)
         resp = R.SendEventResponse(prod, ping_interval=1000)
-        resp.thread_pool = ShimPool()
+        resp.thread_pool = ShimPool(exhausted=(kind == K_WX))
     else:
         prod = SyncProducer(n, ending, lambda k: b"%d," % k, False)
         resp = R.StreamResponse(prod)
@@ -699,7 +706,7 @@ def run_asgi(kind, n, ending, choices):
 
 def impl(case):
     kind, (n, ending), choices = case[0], case[1], case[2]
-    if kind in (K_WS, K_WE):
+    if kind in (K_WS, K_WE, K_WX):
         return run_wsgi(kind, n, ending, choices)
     if kind in (K_AS, K_AE):
         return run_asgi(kind, n, ending, choices)
@@ -710,8 +717,8 @@ def impl(case):
 
 # steps that may still follow the close / disconnect (coarse steps; from the ranking
 # functions of close_terminates: the fine-step bounds are larger)
-MAX_AFTER = {K_WS: 1, K_WE: 14, K_AS: 6, K_AE: 10}
-MAX_PROD_AFTER = {K_WS: 0, K_WE: 1, K_AS: 1, K_AE: 3}
+MAX_AFTER = {K_WS: 1, K_WE: 14, K_AS: 6, K_AE: 10, K_WX: 14}
+MAX_PROD_AFTER = {K_WS: 0, K_WE: 1, K_AS: 1, K_AE: 3, K_WX: 0}
 
 
 def oracle(case, obs):
